@@ -69,7 +69,7 @@ def jPairs {α β} (f : α → Json) (g : β → Json) (l : List (α × β)) : J
   arr (fun (p : α × β) => Json.arr [f p.1, g p.2]) l
 
 /-- public (and private) view of the three-map model -/
-def viewModel (s : St K V) (keys : List K) (vals : List V) : List (String × Json) :=
+def viewModel (s : St K V) (keys : List K) (vals : List V) (tuples : List (List K)) : List (String × Json) :=
   [ ("len", natToJson (len s)),
     ("iter", arr Json.int (iterValues s)),
     ("items", jPairs jKeys Json.int s.store),
@@ -77,73 +77,78 @@ def viewModel (s : St K V) (keys : List K) (vals : List V) : List (String × Jso
     ("inv_dict", jPairs Json.int jKeys s.invDict),
     ("get", arr (fun k => jOptVal (getitem s k)) keys),
     ("k2k", arr (fun k => jOptKeys (key2keys s k)) keys),
-    ("v2k", arr (fun v => jKeys (value2keys s v)) vals) ]
+    ("v2k", arr (fun v => jKeys (value2keys s v)) vals),
+    ("gett", arr (fun t => jOptVal (getTuple s t)) tuples) ]
 
-def viewSpec (l : Log K V) (keys : List K) (vals : List V) : List (String × Json) :=
+def viewSpec (l : Log K V) (keys : List K) (vals : List V) (tuples : List (List K)) : List (String × Json) :=
   [ ("len", natToJson (specLen l)),
     ("iter", arr Json.int (specValues l)),
     ("items", jPairs jKeys Json.int (specItems l)),
     ("get", arr (fun k => jOptVal (specGet l k)) keys),
     ("k2k", arr (fun k => jOptKeys (specKey2keys l k)) keys),
-    ("v2k", arr (fun v => jKeys (keysOf l v)) vals) ]
+    ("v2k", arr (fun v => jKeys (keysOf l v)) vals),
+    ("gett", arr (fun t => jOptVal (specGetT l t)) tuples) ]
 
 def jAttrName : Option K → Json
   | none => Json.null
   | some k => Json.str k
 
 /-- `all = false`: the view is reported after the last step only -/
-def traceMK (all : Bool) (keys : List K) (vals : List V) :
+def traceMK (all : Bool) (keys : List K) (vals : List V) (tuples : List (List K)) :
     St K V → Log K V → List (Op K V) → List Json × List Json
   | _, _, [] => ([], [])
   | s, l, op :: ops =>
     let m := step s op
     let p := specStep l op
-    let t := traceMK all keys vals m.1 p.1 ops
+    let t := traceMK all keys vals tuples m.1 p.1 ops
     let v := all || ops.isEmpty
-    (Json.mkObj (("res", jRes m.2) :: (if v then viewModel m.1 keys vals else [])) :: t.1,
-     Json.mkObj (("res", jRes p.2) :: (if v then viewSpec p.1 keys vals else [])) :: t.2)
+    (Json.mkObj (("res", jRes m.2) :: (if v then viewModel m.1 keys vals tuples else [])) :: t.1,
+     Json.mkObj (("res", jRes p.2) :: (if v then viewSpec p.1 keys vals tuples else [])) :: t.2)
 
-def viewSDModel (s : SD K V) (keys : List K) (vals : List V) : List (String × Json) :=
+def viewSDModel (s : SD K V) (keys : List K) (vals : List V) (tuples : List (List K)) : List (String × Json) :=
   ("attrs", jPairs jAttrName Json.int s.attrs)
     :: ("default", jRes (Res.ofDefault (sdDefault s)))
     :: ("sditer", arr Json.int (sdIter s))
     :: ("getattr", arr (fun k => match sdGetattr s (some k) with
           | some v => jRes (.val v) | none => jRes .attrError) keys)
-    :: viewModel s.mkd keys vals
+    :: viewModel s.mkd keys vals tuples
 
-def viewSDSpec (g : SDSpec K V) (keys : List K) (vals : List V) : List (String × Json) :=
+def viewSDSpec (g : SDSpec K V) (keys : List K) (vals : List V) (tuples : List (List K)) : List (String × Json) :=
   ("attrs", jPairs Json.str Json.int g.attr)
     :: ("default", jRes (Res.ofDefault g.default))
     :: ("getattr", arr (fun k => match dget g.attr k with
           | some v => jRes (.val v) | none => jRes .attrError) keys)
-    :: viewSpec g.log keys vals
+    :: viewSpec g.log keys vals tuples
 
-def traceSD (all : Bool) (keys : List K) (vals : List V) :
+def traceSD (all : Bool) (keys : List K) (vals : List V) (tuples : List (List K)) :
     SD K V → SDSpec K V → List (SOp K V) → List Json × List Json
   | _, _, [] => ([], [])
   | s, g, op :: ops =>
     let m := sdStep s op
     let p := sdSpecStep g op
-    let t := traceSD all keys vals m.1 p.1 ops
+    let t := traceSD all keys vals tuples m.1 p.1 ops
     let v := all || ops.isEmpty
-    (Json.mkObj (("res", jRes m.2) :: (if v then viewSDModel m.1 keys vals else [])) :: t.1,
-     Json.mkObj (("res", jRes p.2) :: (if v then viewSDSpec p.1 keys vals else [])) :: t.2)
+    (Json.mkObj (("res", jRes m.2) :: (if v then viewSDModel m.1 keys vals tuples else [])) :: t.1,
+     Json.mkObj (("res", jRes p.2) :: (if v then viewSDSpec p.1 keys vals tuples else [])) :: t.2)
 
 def handle (entry : String) (j : Json) : Except String Json := do
   let keys ← getKeys (← field j "keys")
   let vals ← getList getInt (← field j "vals")
+  let tuples ← match j.getObjVal? "tuples" with
+    | some t => getList getKeys t
+    | none => pure []
   let all := match j.getObjVal? "view" with
     | some (Json.str "last") => false
     | _ => true
   match entry with
   | "mk" =>
     let ops ← getList parseOp (← field j "ops")
-    let t := traceMK all keys vals (St.empty) ([] : Log K V) ops
+    let t := traceMK all keys vals tuples (St.empty) ([] : Log K V) ops
     let last := keys.map fun k => jOptVal (lastAssigned k ops none)
     pure <| Json.mkObj [("model", Json.arr t.1), ("spec", Json.arr t.2), ("last", Json.arr last)]
   | "sd" =>
     let ops ← getList parseSOp (← field j "ops")
-    let t := traceSD all keys vals (SD.empty) ({} : SDSpec K V) ops
+    let t := traceSD all keys vals tuples (SD.empty) ({} : SDSpec K V) ops
     pure <| Json.mkObj [("model", Json.arr t.1), ("spec", Json.arr t.2)]
   | _ => throw s!"C15: unknown entry {entry}"
 
